@@ -6,5 +6,5 @@ OpsSum  == {"Add", "Sub"}
 OpsProd == {"Mul", "Div", "FloorDiv", "Pow"}
 OpsFail == {"Add", "Sub", "Lt", "GetValue"}
 SeedsNone == {}
-SeedsMulDiv == {"Mul", "Div", "Pow"}
+SeedsMulDiv == {"Mul", "Div", "Pow", "Raw"}
 =============================================================================
